@@ -212,6 +212,37 @@ def directed(ctx, sc0):
         steps.append({"name": "End"})
         out.append({"sc": sc0 + len(out), "combo": combo, "steps": steps,
                     "cfg": {"v": v, "a": a, "gop": 1, "hls": True, "fragMs": 100, "rtsp": True}})
+    # a sequence-header change after the probe stage, then single parameter sets in band (a pps on its own, later an
+    # sps on its own), each before a key picture: the sets written before the key pictures must be the ones in force
+    for combo in ("avc_aac", "hevc_aac", "avc_none"):
+        v, a = COMBOS[combo]
+        def vm2(key, nals, cts=0):
+            return {"k": "v", "ver": 0, "key": key, "cts": cts, "n": 0, "nals": nals}
+        steps = [{"name": "Join", "c": "t1"},
+                 {"name": "Pub", "m": {"k": "vsh", "ver": 1, "key": False, "cts": 0, "n": 0, "nals": []}, "ts": 700}]
+        if a == "aac":
+            steps.append({"name": "Pub", "m": {"k": "ash", "ver": 1, "key": False, "cts": 0, "n": 0, "nals": []}, "ts": 700})
+        t = 700
+        for i in range(18 if a == "none" else 3):
+            steps.append({"name": "Pub", "m": vm2(i % 6 == 0, [{"t": "idr" if i % 6 == 0 else "slice", "v": 0, "n": 60 + i}]), "ts": t})
+            if a != "none":
+                steps.append({"name": "Pub", "m": {"k": "a", "ver": 0, "key": False, "cts": 0, "n": 90 + i, "nals": []}, "ts": t + 5})
+            t += 40
+        steps.append({"name": "Pub", "m": {"k": "vsh", "ver": 2, "key": False, "cts": 0, "n": 0, "nals": []}, "ts": t})
+        seq = [vm2(True, [{"t": "idr", "v": 0, "n": 310}]), vm2(False, [{"t": "slice", "v": 0, "n": 120}]),
+               vm2(True, [{"t": "pps", "v": 3, "n": 0}, {"t": "idr", "v": 0, "n": 222}]), vm2(False, [{"t": "slice", "v": 0, "n": 77}]),
+               vm2(True, [{"t": "idr", "v": 0, "n": 405}]),
+               vm2(True, [{"t": "sps", "v": 3, "n": 0}, {"t": "idr", "v": 0, "n": 188}]), vm2(True, [{"t": "idr", "v": 0, "n": 99}])]
+        for i, m in enumerate(seq):
+            steps.append({"name": "Pub", "m": m, "ts": t})
+            if a != "none":
+                steps.append({"name": "Pub", "m": {"k": "a", "ver": 0, "key": False, "cts": 0, "n": 140 + i, "nals": []}, "ts": t + 10})
+            if i == 3:
+                steps.append({"name": "Join", "c": "t2"})
+            t += 40
+        steps.append({"name": "End"})
+        out.append({"sc": sc0 + len(out), "combo": combo, "steps": steps,
+                    "cfg": {"v": v, "a": a, "gop": 1, "hls": True, "fragMs": 100, "rtsp": True}})
     return out
 
 
